@@ -54,7 +54,7 @@ def unload(mod):
     linecache.cache.pop(getattr(mod, "__file__", None), None)
 
 
-def compile_entity(entity, sidecar=False):
+def compile_entity(entity, sidecar=False, reserved=None):
     """-> VHDL text (and the vhdl library object when sidecar=True); raises Rejected"""
     from cohdl import std
 
@@ -62,9 +62,11 @@ def compile_entity(entity, sidecar=False):
     try:
         with contextlib.redirect_stdout(buf), contextlib.redirect_stderr(buf):
             if sidecar:
-                lib = std.VhdlCompiler.to_vhdl_library(entity)
+                lib = std.VhdlCompiler.to_vhdl_library(entity) if reserved is None else std.VhdlCompiler.to_vhdl_library(entity, additional_reserved_names=set(reserved))
                 text = lib.write()
                 return text, lib
+            if reserved is not None:
+                return std.VhdlCompiler.to_string(entity, additional_reserved_names=set(reserved))
             return std.VhdlCompiler.to_string(entity)
     except (KeyboardInterrupt, SystemExit, MemoryError):
         raise
@@ -72,7 +74,7 @@ def compile_entity(entity, sidecar=False):
         raise Rejected(e) from None
 
 
-def compile_source(src, entity_name="E", sidecar=False):
+def compile_source(src, entity_name="E", sidecar=False, reserved=None):
     """define the module (definition-time errors are rejections too) and compile entity_name"""
     buf = io.StringIO()
     try:
@@ -83,7 +85,7 @@ def compile_source(src, entity_name="E", sidecar=False):
     except BaseException as e:
         raise Rejected(e) from None
     try:
-        return compile_entity(getattr(mod, entity_name), sidecar=sidecar)
+        return compile_entity(getattr(mod, entity_name), sidecar=sidecar, reserved=reserved)
     finally:
         unload(mod)
 
